@@ -10,7 +10,8 @@ open Pycomm Pycomm.Tgt Pycomm.Path Pycomm.Reply Pycomm.Encap Pycomm.Lgx Pycomm.L
 /-! ### (b) `encode_value` for one element of an array tag -/
 
 /-- a one-element array encodes to the encoding of the element -/
-theorem ldx_encode_one (t : Ty) (v : PyVal) (bytes : Bytes) (hb : t.isBits = none) (henc : encode t v = .ok bytes) :
+theorem ldx_encode_one (t : Ty) (v : PyVal) (bytes : Bytes) (hb : t.isBits = none)
+    (henc : encode t (argOf t v) = .ok bytes) :
     encode (.arr (.fixed 1) t) (.list [v]) = .ok bytes := by
   unfold encode
   simp only [PyVal.len?, PyVal.seq?, List.length_cons, List.length_nil, Nat.zero_add, Nat.lt_irrefl, decide_false,
@@ -33,7 +34,7 @@ theorem ldx_encodeValue_elem (p : Parsed) (info : TagInfo) (dim : Nat) (t : Ty) 
     (hnb : ∀ b, p.value ≠ .bytes b) (hseq : isNonStrSequence p.value = false)
     (hnd : info.core.dataTypeName ≠ nm "DWORD") (hty : info.core.ty = .arr (.fixed dim) t) (hb : t.isBits = none)
     (hbe : p.boolElements = none) (hel : p.elements = 1)
-    (henc : encode t p.value = .ok bytes) : encodeValue p info = (p, some bytes) := by
+    (henc : encode t (argOf t p.value) = .ok bytes) : encodeValue p info = (p, some bytes) := by
   have hdw : (info.core.dataTypeName == nm "DWORD") = false := by simpa using hnd
   have h1 := ldx_encode_one t p.value bytes hb henc
   unfold encodeValue
